@@ -4,8 +4,8 @@ CONSTANTS
   CapPkt = 1
   CapRW = 1
   CapCh = 1
-  MaxReq = 5
-  Handles = {"h1"}
+  MaxReq = 4
+  Handles = {"h1","h2"}
   Kinds = {"R","C","M"}
   Barrier = TRUE
   DrainOnFini = TRUE
